@@ -1,10 +1,11 @@
 ------------------------------- MODULE MCFiles -------------------------------
 (* Design check of Files.tla (C20): every layout of a bounded universe.     *)
 EXTENDS FilesWalk
-F(i) == [k |-> "f", n |-> i]
-D(i, es) == [k |-> "d", n |-> i, es |-> es]
-MCItems == {F(2), F(4), F(5), F(6), F(10), F(11), F(15), [k |-> "x", n |-> 16],
-            D(8, <<F(15), F(4)>>), D(8, <<F(10), F(5), F(3)>>), D(8, <<D(13, <<F(2)>>), F(15), F(11)>>), D(13, <<>>)}
+F(nm) == [k |-> "f", n |-> Idx(nm)]
+D(nm, es) == [k |-> "d", n |-> Idx(nm), es |-> es]
+MCItems == {F("B.lp"), F("a.lp"), F("a.spec"), F("c.lp.bak"), F("m.ug"), F("n.po"), F("z.lp"), [k |-> "x", n |-> Idx("zz")],
+            D("dir", <<F("z.lp"), F("a.lp")>>), D("dir", <<F("m.ug"), F("a.spec"), F("a-b.lp")>>),
+            D("dir", <<D("sub", <<F("B.lp")>>), F("z.lp"), F("n.po"), F(".h.lp")>>), D("sub", <<>>)}
 MCLayouts == UNION {[1..k -> MCItems] : k \in 0..3}
 MCInit == \E l \in MCLayouts : InitWalk(l)
 MCSpec == MCInit /\ [][WalkNext]_fvars
